@@ -99,6 +99,19 @@ Definition chk_carry (prec : Z) (E : nat) (rprod : mat) (pre : list tracker) (d2
 Definition chk_dtot (W : nat) (dem : mat) (idtot : vec) : nat :=
   vcmp N (fun f => sumn W (fun j => qabs (get dem f j))) (tab N (fun f => rowtot W dem f)) idtot.
 
+(* reg.append : add_event / add_events between two steps (Sim.register): the trackers already
+   registered are untouched (every field), the new ones come last, pending, without id, their
+   books open at the initial damage: [status; rid; dmg; hdmg; arb; rem_i; rem_h; new trackers fresh] *)
+Definition oveqb (a b : option vec) : bool :=
+  match a, b with None, None => true | Some x, Some y => veqb x y | _, _ => false end.
+Definition is_fresh (tr : tracker) : bool :=
+  status_eqb (st tr) Pending && onat_eqb (rid tr) None &&
+  oveqb (dmg tr) (dmg0 tr) && oveqb (hdmg tr) (hdmg0 tr) && oveqb (arb tr) (arb0 tr).
+Definition chk_register (pre post : list tracker) : list nat :=
+  let k := length pre in
+  cmp_trackers 0 pre (firstn k post) ++
+  [ if Nat.leb k (length post) && forallb is_fresh (skipn k post) then 0 else 3 ]%nat.
+
 (* rec.ledger *)
 Definition chk_recover (prec : Z) (t : nat) (pre post : list tracker) : list nat :=
   cmp_trackers (pow10 (- prec)) (recover_ledgers prec t pre) post.
